@@ -16,10 +16,11 @@ Init == l = 1 /\ t = NewTracker(0, <<>>) /\ p = -1 /\ mlast = <<>> /\ mp = 0 /\ 
 Abs(x) == IF x < 0 THEN -x ELSE x
 \* A chain that lives at location `off` is traced RELATIVE to off (mean and variance are shift-equivariant / invariant).
 \* The reported mean is an f32 number at that location: it cannot be closer than the spacing of f32 numbers there
-\* (ms units, 2 of them allowed); nothing else may depend on the location -- a tracker that accumulates raw values
+\* (ms units, 2 of them allowed -- at 1e9, for f64 / integer states, that is 128); nothing else may depend on the
+\* location: the variance gets at most 2 units -- a tracker that accumulates raw values
 \* (E[x^2] - mean^2, or a running mean of the raw values that stalls once delta/n drops below the spacing) is rejected.
 MeanOk(tr, k, m) == Abs(m * tr.n - MeanNum(tr, k) * 4096) <= (2 + tr.n \div 256 + 2 * ms) * tr.n
-VarOk(tr, k, v) == Abs(v - Fx12(VarNum(tr, k), tr.n * (tr.n - 1))) <= 4 + tr.n \div 32 + ms
+VarOk(tr, k, v) == Abs(v - Fx12(VarNum(tr, k), tr.n * (tr.n - 1))) <= 4 + tr.n \div 32 + (IF ms < 2 THEN ms ELSE 2)
 
 New ==
   /\ l <= Len(Rec) /\ Rec[l].e = "new"
